@@ -5,6 +5,7 @@ import gen
 from algos import *
 from corankco.algorithms.exact.exactalgorithm import ExactAlgorithm
 from corankco.algorithms.exact.exactalgorithmpulp import ExactAlgorithmPulp
+from corankco.consensus import ConsensusFeature
 
 CONFIGS = [(0, "selector optimize=True", lambda: ExactAlgorithm(optimize=True), True),
            (1, "selector optimize=False", lambda: ExactAlgorithm(optimize=False), True),
@@ -70,8 +71,93 @@ class Exact(Suite):
         acc["cplex_importable"] = acc.get("cplex_importable", 0) + int(out["cplex_importable"])
 
 
+def var_term(name):
+    k, i, j = name.split("_")
+    return f"({'X' if k == 'x' else 'T'} {nat(int(i))} {nat(int(j))})"
+
+
+class Ilp(Suite):
+    """the integer program that ExactAlgorithmPulp hands to the solver, captured at the call of LpProblem.solve,
+    and the solver's answer: compared row for row with the model's program (ILP.v), the answer checked feasible for
+    the MODEL's rows and decoded by the model's decoder"""
+    name = "ilp"
+    imports = ["Scheme", "Rank", "Partition", "ILP", "Judge.JOpt", "Judge.JILP"]
+    judge = "judge_ilp"
+    show = "show_ilp"
+    ctype = "c05ilp"
+
+    def gen(self, tier, rng):
+        cases = [{"s": gen.INDUCED, "D": [[[1]], [[2]]]}, {"s": gen.GENERIC, "D": [[[5]]]},
+                 {"s": gen.GENERIC, "D": [[[1], [2], [3]], [[2], [3], [1]], [[3], [1], [2]]]},
+                 {"s": gen.UNIFYING, "D": [[[3], [2], [1], [4]], [[1, 3, 4]], [[3, 4]], []]}]
+        prs = gen.all_partial_rankings([0, 1, 2])
+        for _ in range(20 if tier == "quick" else 300):
+            cases.append({"s": opt_scheme(rng), "D": [rng.choice(prs) or [[0]], rng.choice(prs), rng.choice(prs)]})
+        for _ in range(25 if tier == "quick" else 400):
+            cases.append({"s": p_scheme(rng), "D": cyclic_dataset(rng, 5 if tier == "quick" else 6)})
+        for _ in range(45 if tier == "quick" else 900):
+            nmax = rng.choice([3, 4, 5, 5]) if tier == "quick" else rng.choice([4, 5, 6, 6])
+            cases.append({"s": opt_scheme(rng), "D": layered_dataset(rng, nmax, 5) if rng.random() < 0.5 else gen.random_dataset(rng, nmax, 5)})
+        return cases
+
+    def run(self, case):
+        import pulp
+        ds, sc = mk(case["D"], case["s"])
+        out = {"D": gen.observe(ds), "U": gen.id_order(ds)}
+        cap = {}
+        orig = pulp.LpProblem.solve
+
+        def solve(prob, solver=None, **kw):
+            res = orig(prob, solver, **kw)
+            cap["rows"] = [([(float(c), v.name) for v, c in con.items()], int(con.sense), -float(con.constant))
+                           for con in prob.constraints.values()]
+            # pulp adds a variable "__dummy" (coefficient 0) when the objective has no term
+            cap["obj"] = [(float(c), v.name) for v, c in prob.objective.items() if v.name != "__dummy"] if prob.objective is not None else []
+            cap["vals"] = [(v.name, v.value()) for v in prob.variables() if v.name != "__dummy"]
+            return res
+        pulp.LpProblem.solve = solve
+        try:
+            graph, _ = ExactAlgorithmPulp.graph_of_elements(ds.get_positions(), sc)
+            out["P"] = [list(g) for g in graph.components()]
+            cons = ExactAlgorithmPulp().compute_consensus_rankings(ds, sc, True)
+            out["cons"] = lst(cons.consensus_rankings[0])
+            sc_rep = cons.features.get(ConsensusFeature.KEMENY_SCORE) if hasattr(cons, "features") else None
+            # -1. is the Consensus object's "not computed yet" sentinel (the objective had no term: F6)
+            out["score"] = None if sc_rep is None or float(sc_rep) == -1.0 else to_units(float(sc_rep))
+        except Exception as e:
+            out["err"] = type(e).__name__ + ": " + str(e)[:100]
+        finally:
+            pulp.LpProblem.solve = orig
+        out["cap"] = cap
+        return out
+
+    def term(self, case, out):
+        head = f"mkILP {scheme_term(case['s'])} {dataset_term(out['D'])} {natlist(out['U'])}"
+        if "err" in out or "rows" not in out["cap"]:
+            # an exception, or no program was solved: encoded as an empty program with an empty consensus (ill-formed)
+            return f"({head} [] [] [] [] false [] None)"
+        cap = out["cap"]
+        rows = clist([f"(mkRow {clist(['(' + z(int(round(c))) + ', ' + var_term(v) + ')' for c, v in terms])} {cbool(sense == 0)} {z(int(round(rhs)))})"
+                      for terms, sense, rhs in cap["rows"]])
+        obj = clist([f"({z(to_units(c))}, {var_term(v)})" for c, v in cap["obj"]])
+        vals = clist([f"({var_term(v)}, {z(1 if val is not None and abs(val - 1) < 0.01 else 0)})" for v, val in cap["vals"]])
+        integral = all(val in (0.0, 1.0) for _, val in cap["vals"]) and all(s in (0, -1) for _, s, _ in cap["rows"]) \
+            and all(float(c).is_integer() for terms, _, rhs in cap["rows"] for c, _ in terms) and all(float(rhs).is_integer() for _, _, rhs in cap["rows"])
+        return (f"({head} {clist([natlist(g) for g in out['P']])} {rows} {obj} {vals} {cbool(integral)} "
+                f"{ranking_term(out['cons'])} {copt(out['score'], z)})")
+
+    def nontrivial(self, case, out):
+        return len(out["U"]) >= 3 and "rows" in out.get("cap", {})
+
+    def stats(self, case, out, acc):
+        acc[f"n={len(out['U'])}"] = acc.get(f"n={len(out['U'])}", 0) + 1
+        acc["rows_total"] = acc.get("rows_total", 0) + len(out.get("cap", {}).get("rows", []))
+        acc["components>1"] = acc.get("components>1", 0) + int(len(out.get("P", [])) > 1)
+        acc["exceptions"] = acc.get("exceptions", 0) + int("err" in out)
+
+
 if __name__ == "__main__":
-    main("C05", [Exact()],
+    main("C05", [Exact(), Ilp()],
          level_note="see MANIFEST",
          rule="witnesses of F1 / F2 / F6; 3-ranking datasets over {0,1,2}; layered and random datasets up to 6 (7) elements, schemes biased to "
               "B5 != T5; four configurations per dataset (selector optimize on/off, free-solver model one / all); the optimum is recomputed "
